@@ -69,7 +69,7 @@ def while_invariant(I, st, s, fr):
 def for_invariant(I, st, s, itv, fr):
     """for x in <heap sequence of symbolic length> with a sidecar invariant over ghost index `_i`."""
     spec, ordn = _inv_for(I, fr, s)
-    if spec["opts"].get("iter") in ("dict-keys", "opaque"):
+    if spec["opts"].get("iter") in ("dict-keys", "dict-items", "opaque"):
         return opaque_iteration(I, st, s, itv, fr, spec, ordn)
     if not isinstance(itv, Sym):
         raise Unsupported(f"for over {itv!r}")
@@ -175,20 +175,39 @@ def opaque_iteration(I, st, s, itv, fr, spec, ordn):
     item = I.fresh_v("item")
     if spec["opts"].get("iter") == "dict-keys" and isinstance(itv, Sym):
         head.fact(z3.Select(head.read(HAS, get_loc(itv.t)), item.t))
-        if spec["opts"].get("key_type") == "str" or True:
-            pass
     kt = spec["opts"].get("item_type")
     if kt == "str":
         head.fact(is_str(item.t))
+    if spec["opts"].get("iter") == "dict-items":
+        if not (isinstance(itv, B.ItemsOf) and isinstance(itv.src, Sym)):
+            raise Unsupported(f"dict-items iteration over {itv!r}")
+        mloc = get_loc(itv.src.t)
+        head.fact(z3.Select(head.read(HAS, mloc), item.t))        # the key is a key of the mapping
+        if spec["opts"].get("key_type") == "str":
+            head.fact(is_str(item.t))
+        val = Sym(z3.Select(head.read(MAP, mloc), item.t))
+        if spec["opts"].get("value_type") == "str":
+            head.fact(is_str(val.t))
+        item = Tup([item, val])
     for a in I.assign(head, s.target, item, fr):
         if a.kind != "normal":
             outs.append(a); continue
+        snap = (dict(a.st.heap), a.st.frontier, dict(a.st.ghost), len(a.st.events))      # state at the start of this iteration
+        item0 = item
         for o in I.exec_block(a.st, s.body, fr):
             if o.kind in ("normal", "continue"):
                 for nm, expr in spec["inv"]:
                     I.oblige(o.st, f"loop{ordn}:preserve:{nm}", I.spec_bool(o.st, expr, env(o.st), old=o.st.old), kind="inv")
+                for nm, expr in spec["opts"].get("iter_post", []):
+                    # per-iteration effect: old(...) here is the state at the START OF THE ITERATION
+                    I.oblige(o.st, f"loop{ordn}:iteration:{nm}", I.spec_bool(o.st, expr, {**env(o.st), "_item": item0}, old=snap), kind="inv")
             elif o.kind == "break":
                 outs.append(Out(o.st, "normal"))
             else:
                 outs.append(o)
+    for o in outs:
+        if o.kind == "normal":
+            for g_, expr in (spec["opts"].get("capture") or {}).items():
+                # ghost code attached to the loop exit: remember a value for the postcondition
+                o.st.ghost[g_] = I.spec_value(o.st, expr, env(o.st), old=o.st.old)
     return outs
